@@ -61,7 +61,7 @@ def plan(tier):
                "check_operator_terms", "eq-routes"]
     if tier == "quick":
         return {"ncases": 3000, "min_nontrivial": 1500, "case_time_limit": 60, "required_classes": classes,
-                "required_counters": {"oracle": 15000, "eq_pairs": 10000, "qn_terms_checked": 20000,
+                "required_counters": {"oracle": 9000, "eq_pairs": 50000, "qn_terms_checked": 25000,
                                       "end_to_end": 2500}}
     return {"ncases": 100000, "min_nontrivial": 50000, "case_time_limit": 60, "required_classes": classes,
             "required_counters": {"oracle": 500000, "eq_pairs": 300000, "qn_terms_checked": 600000,
@@ -388,7 +388,7 @@ class Builder:
             ctx.violate((sig or what) + "|nonfinite", expr=expr)
             raise CaseAbort()
         allowed = 1e-10 * scale + extra_tol
-        ctx.metric_max("err_over_allowed", err / allowed)
+        ctx.metric_max("exact_err_over_allowed" if extra_tol == 0 else "simplify_err_over_allowed", err / allowed)
         if err > allowed:
             ctx.violate((sig or what) + "|dense-mismatch", err=err, allowed=allowed, scale=scale, expr=expr,
                         result=[str(t) for t in terms_of(v)[:8]])
@@ -418,7 +418,7 @@ class Builder:
         if sum(len(so.words) for so in siteops) > budget_words:
             return None
         if rng.random() < 0.12 and budget_terms >= 2:
-            return self.cancelling_pair(siteops)
+            return self.cancelling_pair(siteops, forbid)
         return self.atom(siteops)
 
     def atom(self, siteops, factor=None):
@@ -454,13 +454,22 @@ class Builder:
         self.pool.append(val)
         return val
 
-    def cancelling_pair(self, siteops):
+    def cancelling_pair(self, siteops, forbid):
         """c*A + (-c + delta)*A: merged by simplify into a small or zero term."""
         rng = self.rng
         c = self.rand_factor_value(allow_complex=False)
         delta = float(rng.choice([0.0, 1e-9, 1e-4, 1e-2])) * abs(c)
         a = self.atom(siteops, c)
-        b = self.atom(siteops, -c + delta)
+        twin = list(siteops)
+        if rng.random() < 0.4:
+            # the same operator written with an explicit identity: equal to `a` only after squeeze_identity
+            used = {so.site for so in siteops}
+            cands = [s for s in range(self.m.n) if s in self.m.spin or (s not in used and s not in forbid)]
+            if cands:
+                s = cands[int(rng.integers(0, len(cands)))]
+                twin.insert(int(rng.integers(0, len(twin) + 1)), self.m.identity[s])
+                self.ctx.cls("identity-twin")
+        b = self.atom(twin, -c + delta)
         self.ctx.cls("cancelling-pair")
         return self.binary("add", a, b)
 
@@ -800,7 +809,7 @@ def eq_routes(ctx, bld):
     f, g, h = (float(rng.choice(DY)) for _ in range(3))
     k = int(rng.choice(KS))
     routes = ["ctor-factor-type", "scalar-mul-vs-ctor", "qn-container", "dof-scalar-vs-list", "neg", "sub", "div",
-              "iadd", "product-routes", "distributive", "squeeze", "simplify-merge", "unequal"]
+              "iadd", "product-routes", "distributive", "squeeze", "simplify-merge", "unequal", "identity-ctor"]
     chosen = [routes[i] for i in rng.choice(len(routes), size=4, replace=False)]
 
     def guarded(route, fn):
@@ -832,6 +841,18 @@ def eq_routes(ctx, bld):
                     pairs.append((Op(s, d, f, qn=int(q[0][0])), ref))
             if len(q) == 1:
                 pairs.append((Op(s, d, f, qn=q[0].copy()), ref))
+        elif route == "identity-ctor":
+            def fn():
+                z = np.zeros(m.qn_size, dtype=int)
+                d0 = m.identity[int(rng.integers(0, m.n))].dofs[0]
+                d1 = m.identity[int(rng.integers(0, m.n))].dofs[0]
+                out = [(Op.identity(d0, qn_size=m.qn_size, factor=f), Op("I", d0, f, qn=[z])),
+                       (Op.identity([d0, d1], qn_size=m.qn_size, factor=f), Op("I I", [d0, d1], f, qn=[z, z])),
+                       (Op.identity([d0, d1], qn_size=m.qn_size, factor=f).squeeze_identity(), Op("I", d0, f, qn=[z]))]
+                if m.qn_size == 1:
+                    out.append((Op.identity(d0, factor=f), Op("I", d0, f)))
+                return out
+            pairs = guarded(route, fn)
         elif route == "dof-scalar-vs-list":
             s, d, q = words_of([A])
             if len(set(d)) != 1:
@@ -881,7 +902,10 @@ def eq_routes(ctx, bld):
                 s3 += (c + a)
                 s4 = a
                 s4 += b
-                return [(s1, a + b + c), (s2, a + b + c + a), (s3, s2), (s4, a + b), (s1, OpSum([a, b, c]))]
+                s5 = s1.copy()
+                s5 += a
+                return [(s1, a + b + c), (s2, a + b + c + a), (s3, s2), (s4, a + b), (s1, OpSum([a, b, c])),
+                        (s5, s2), (s1.copy(), s1)]
             pairs = guarded(route, fn)
         elif route == "product-routes":
             if len(picks) < 2:
@@ -935,6 +959,10 @@ def eq_routes(ctx, bld):
             others = [mk([A], f * 2), mk([A], -f)]
             if len(picks) > 1:
                 others.append(mk([picks[1]], f))
+            # same symbol, DoFs and factor, different quantum numbers: == and hash must still agree
+            sA, dA, qA = words_of([A])
+            others.append(Op(sA, dA, f, qn=[x + 1 for x in qA]))
+            others.append(Op(sA, dA, f, qn=[qA[0] - 2] + [x.copy() for x in qA[1:]]))
             for o in others:
                 check_pair(ctx, "unequal", a, o, expect_equal=False)
             continue
